@@ -160,7 +160,7 @@ func (e *erasureCodingPartStore) healScanOnce(ctx context.Context, cancelTask *a
 		if cancelTask.Load() {
 			return
 		}
-		rc, err := e.GetPart(ctx, nil, partId)
+		rc, err := e.getPart(ctx, nil, partId, true)
 		if err != nil {
 			slog.Warn("erasurecoding heal scan failed to open part", "partId", partId.String(), "err", err)
 			continue
@@ -322,13 +322,23 @@ func (e *erasureCodingPartStore) Capabilities() partstore.Capabilities {
 }
 
 func (e *erasureCodingPartStore) GetPart(ctx context.Context, tx database.Tx, partId partstore.PartId) (io.ReadCloser, error) {
+	// Healing calls PutPart of the shard stores with the reader's transaction. A
+	// tx-free read (tx == nil) may only do that when every shard store supports
+	// tx-free writes (an outbox shard store, for one, supports tx-free reads but
+	// dereferences the transaction in PutPart). Otherwise the read is served
+	// degraded, without healing; a transactional read repairs the part.
+	heal := tx != nil || e.Capabilities().Has(partstore.CapabilityTxFreePutPart)
+	return e.getPart(ctx, tx, partId, heal)
+}
+
+func (e *erasureCodingPartStore) getPart(ctx context.Context, tx database.Tx, partId partstore.PartId, heal bool) (io.ReadCloser, error) {
 	unlock := e.partLocker.RLock(partId)
 	readers, healShards, err := e.openPartReaders(ctx, tx, partId)
 	if err != nil {
 		unlock()
 		return nil, err
 	}
-	if hasHealShards(healShards) {
+	if heal && hasHealShards(healShards) {
 		closePartReaders(readers)
 		unlock()
 		return e.getPartWithHealing(ctx, tx, partId)
